@@ -304,6 +304,33 @@ func (g *Gen) RandomTx(r *mon.Rand, avail []Spendable, o TxOpts) (*wire.MsgTx, [
 		if !g.StandardOnly && r.Chance(1, 14) {
 			// a script that does not parse (a push running past its end): valid in an output, never spendable
 			pk = [][]byte{{0x4c}, {0x4b, 0x01}, {0x4d, 0xff}, {0x02, 0x01}, {0x51, 0x4e, 0x01, 0x00, 0x00}, {0xac, 0x05, 0x01, 0x02}}[r.Intn(6)]
+		} else if !g.StandardOnly && r.Chance(1, 14) {
+			// near misses of the script templates that the utxo database stores in a compressed form: they parse, stay
+			// in the utxo set (nobody here spends them) and must come back from the database byte for byte
+			k := g.keys[r.Intn(len(g.keys))]
+			unc := k.PubKey().SerializeUncompressed()
+			switch r.Intn(6) {
+			case 0: // pay-to-pubkey, uncompressed, x on the curve but the wrong y
+				unc[40+r.Intn(20)] ^= byte(1 + r.Intn(255))
+				pk = append(append([]byte{0x41}, unc...), 0xac)
+			case 1: // the same with the hybrid prefixes
+				unc[0] = byte(6 + r.Intn(2))
+				pk = append(append([]byte{0x41}, unc...), 0xac)
+			case 2: // compressed form whose x is not on the curve
+				c := k.PubKey().SerializeCompressed()
+				for i := 0; i < 8; i++ {
+					c[1+r.Intn(32)] ^= byte(1 + r.Intn(255))
+				}
+				pk = append(append([]byte{0x21}, c...), 0xac)
+			case 3: // pay-to-pubkey-hash with a 19-byte hash
+				pk = append(append([]byte{0x76, 0xa9, 0x13}, r.Bytes(19)...), 0x88, 0xac)
+			case 4: // pay-to-script-hash followed by one more opcode
+				pk = append(append([]byte{0xa9, 0x14}, r.Bytes(20)...), 0x87, 0x61)
+			default: // compressed pay-to-pubkey with a prefix that is no key type
+				c := k.PubKey().SerializeCompressed()
+				c[0] = byte(4 + r.Intn(2))
+				pk = append(append([]byte{0x21}, c...), 0xac)
+			}
 		}
 		tx.AddTxOut(&wire.TxOut{Value: v, PkScript: pk})
 	}
